@@ -161,7 +161,11 @@ def check(ctx):
     P = pool()
     reqs = []; meta = []
     pairs = list(itertools.product(range(len(P)), repeat=2))
-    if ctx.quick(): pairs = rng.sample(pairs, 4000)
+    if ctx.quick():
+        # every pair of values of one class (where ==, hash and the order carry content), and a sample of the pairs of different classes
+        same = [(i, j) for i, j in pairs if type(P[i]) is type(P[j])]
+        rest = [(i, j) for i, j in pairs if type(P[i]) is not type(P[j])]
+        pairs = same + rng.sample(rest, min(len(rest), 2500))
     for i, j in pairs:
         reqs.append([Sym("c14_cmp"), uakey(P[i]), uakey(P[j])]); meta.append(("cmp", i, j))
         reqs.append([Sym("c14_eq"), uaval(P[i]), uaval(P[j])]); meta.append(("eq", i, j))
